@@ -2,9 +2,11 @@ package main
 
 import (
 	"fmt"
+	"reflect"
 	"strconv"
 	"strings"
 
+	"github.com/ohler55/ojg/gen"
 	"github.com/ohler55/ojg/jp"
 
 	"verif/harness/lib"
@@ -197,30 +199,56 @@ func (p Path) hasNestedRoot() bool {
 	return false
 }
 
-// sameTruth: every filter script of the path has the same truth value on every node of the tree held in
-// the representation as on the simple form (the `$` operands: the same values on the root).
-func (p Path) sameTruth(root *Node, r Rep) bool {
-	nodes := root.all(nil)
-	for i := range p {
-		if p[i].Kind != 'f' {
-			continue
+// heldAll lists the value held for every node of the tree inside ONE built value (so that identity between
+// an element and what a `$`-path reaches is as in the run), next to the node's simple form.
+func heldAll(v any, n *Node, held, simple *[]any) {
+	*held = append(*held, v)
+	*simple = append(*simple, n.simple())
+	for i, k := range n.Kids {
+		var kv any
+		switch t := v.(type) {
+		case []any:
+			kv = t[i]
+		case map[string]any:
+			kv = t[n.Keys[i]]
+		case gen.Array:
+			kv = t[i]
+		case gen.Object:
+			kv = t[n.Keys[i]]
+		case *ixArr:
+			kv = t.vals[i]
+		case *kyObj:
+			kv = t.vals[n.Keys[i]]
+		default:
+			rv := reflect.ValueOf(v)
+			switch rv.Kind() {
+			case reflect.Slice, reflect.Array:
+				kv = rv.Index(i).Interface()
+			case reflect.Struct:
+				kv = rv.Field(i).Interface()
+			case reflect.Map:
+				kv = rv.MapIndex(reflect.ValueOf(n.Keys[i])).Interface()
+			}
 		}
-		for _, rp := range p[i].Scr.rootOperands(false, nil) {
-			v, ok := root.build(r)
-			if !ok {
-				continue
-			}
-			a, b := goGet(rp.expr(true), v), goGet(rp.expr(true), root.simple())
-			if a.panic != b.panic || !sameBag(a.vals, b.vals) {
-				return false
-			}
-			// comparing CONTAINERS is representation-dependent (`==` of two structs is Go's, of two maps is false)
-			// and the script family's subject; Match below cannot see it for a `$` operand (it has no root to give)
-			if !allLeaves(b.vals) {
-				return false
-			}
-		}
+		heldAll(kv, k, held, simple)
 	}
+}
+
+// sameTruth: every filter script of the path has the same truth value on every node of the tree held in
+// the representation as on the simple form. (Scripts compare containers by Go's `==` on whatever holds them,
+// which differs between representations; that is the script family's subject, such cases are left out here.)
+// A script without `$` is asked through Filter.Match. One with `$` is asked under each of the three root
+// bindings the entry points use: the element itself (Match: Walk), nil (Locate) and the query argument (the
+// others) — the last two by a Get on the wrapper `[root, [node]]` with the path `$[1][?(script')]`, where
+// script' reads `$[0]…` for `$…` (a `$` in a nested filter is bound to the enclosing element by the library
+// and stays as it is).
+func (p Path) sameTruth(root *Node, r Rep) bool {
+	rv, ok := root.build(r)
+	if !ok {
+		return true // (the caller does not run the representation then)
+	}
+	var held, simple []any
+	heldAll(rv, root, &held, &simple)
 	for i := range p {
 		f := &p[i]
 		if f.Kind != 'f' {
@@ -229,16 +257,22 @@ func (p Path) sameTruth(root *Node, r Rep) bool {
 		if f.filt == nil {
 			f.filt = jp.MustNewFilter("[?(" + f.Script + ")]")
 		}
-		for _, n := range nodes {
-			v, ok := n.build(r)
-			if !ok {
-				v = n.simple()
-				if r == repGen {
-					v = n.genNode()
-				}
-			}
-			if matchSafe(f.filt, v) != matchSafe(f.filt, n.simple()) {
+		for j := range held {
+			if matchSafe(f.filt, held[j]) != matchSafe(f.filt, simple[j]) {
 				return false
+			}
+		}
+		if len(f.Scr.rootOperands(true, nil)) == 0 {
+			continue
+		}
+		x := jp.Expr{jp.Root('$'), jp.Nth(1), jp.MustNewFilter("[?(" + f.Scr.rebased().text() + ")]")}
+		for j := range held {
+			for _, roots := range [][2]any{{rv, simple[0]}, {nil, nil}} {
+				a := goGet(x, []any{roots[0], []any{held[j]}})
+				b := goGet(x, []any{roots[1], []any{simple[j]}})
+				if a.panic != b.panic || (len(a.vals) > 0) != (len(b.vals) > 0) {
+					return false
+				}
 			}
 		}
 	}
